@@ -3,6 +3,8 @@ package main
 import (
 	"encoding/json"
 	"fmt"
+	"os"
+	"strconv"
 	"sync"
 	"time"
 
@@ -567,7 +569,10 @@ func replayAuto(in json.RawMessage, res *vh.Result) error {
 	b, rec, closeFn := newBroker(reg, true)
 	defer closeFn()
 	tick := time.Second
-	const wave = 350 // behaviours stepped concurrently (they all wake in the middle of the same ticks)
+	wave := 350 // behaviours stepped concurrently (they all wake in the middle of the same ticks)
+	if v, err := strconv.Atoi(os.Getenv("VERIF_WAVE")); err == nil && v > 0 {
+		wave = v // smaller waves on a loaded machine (the check retries with this when too many behaviours ran late)
+	}
 	for lo := 0; lo < len(behs); lo += wave {
 		hi := lo + wave
 		if hi > len(behs) {
